@@ -59,11 +59,16 @@ def size? : Sexp → Option (Option Nat)
 structure Row where
   k : Key
   cached : Bool
-  children : List Key
+  /-- `(true, k)`: a nested entry-point call made by the element's parse action (`Act.entry`) -/
+  children : List (Bool × Key)
   ret : Val
 
+def child? : Sexp → Option (Bool × Key)
+  | .list [.atom "entry", k] => do pure (true, ← key? k)
+  | k => do pure (false, ← key? k)
+
 def row? : Sexp → Option Row
-  | .list [k, c, .list ch, r] => do pure ⟨← key? k, ← c.bool?, ← ch.mapM key?, ← r.nat?⟩
+  | .list [k, c, .list ch, r] => do pure ⟨← key? k, ← c.bool?, ← ch.mapM child?, ← r.nat?⟩
   | _ => none
 
 /-- unknown keys return the sentinel 999999 so that a gap in the table shows up as a difference -/
@@ -73,7 +78,8 @@ def grammarOf (rows : List Row) : Grammar where
     | none => .ret 999999
     | some r =>
       match r.children[rs.length]? with
-      | some k' => .call k'
+      | some (false, k') => .call k'
+      | some (true, k') => .entry k'
       | none => .ret r.ret
   cached k :=
     match rows.find? (fun r => r.k = k) with
@@ -83,6 +89,7 @@ def grammarOf (rows : List Row) : Grammar where
 def gran? : Sexp → Option Gran
   | .list [.atom "gran", .atom "region"] => some .region
   | .list [.atom "gran", .atom "event"] => some .event
+  | .list [.atom "gran", .atom "lock"] => some .lock
   | _ => none
 
 def initState (size : Option Nat) (roots : List Key) : State :=
@@ -108,6 +115,24 @@ def setup (sz tbl roots gr : Sexp) : Option (Cfg × State) := do
   let gran ← gran? gr
   pure (⟨grammarOf rows, gran, rts.length⟩, initState size rts)
 
+def lop? : Sexp → Option Locks.Op
+  | .atom "acqP" => some (.acq .P) | .atom "relP" => some (.rel .P)
+  | .atom "acqR" => some (.acq .R) | .atom "relR" => some (.rel .R)
+  | .atom "tau" => some .tau
+  | _ => none
+
+def lprog? : Sexp → Option (List Locks.Op)
+  | .list (.atom "prog" :: ops) => ops.mapM lop?
+  | _ => none
+
+/-- first thread whose program breaks the lock discipline for `codeRank`, with the index of the operation -/
+def firstBad : Nat → List (List Locks.Op) → Option (Nat × Nat)
+  | _, [] => none
+  | t, p :: r =>
+      match Locks.firstViolation Locks.codeRank Locks.Held.zero 0 p with
+      | some i => some (t, i)
+      | none => firstBad (t + 1) r
+
 end Thr
 
 open Thr in
@@ -132,6 +157,11 @@ def threadsHandle : List Sexp → Option Sexp
       let (s1, _) := startAll c fuel s0
       let all := explore c fuel 10000 s1 [] [] limit
       pure (.list (all.reverse.map fun sc => .list (sc.map ofNat)))
+  | .atom "locks-check" :: progs => do
+      let ps ← progs.mapM lprog?
+      match firstBad 0 ps with
+      | none => pure (.atom "ok")
+      | some (t, i) => pure (.list [.atom "violation", ofNat t, ofNat i])
   | [.atom "lr-run", .list (.atom "inputs" :: is), .list (.atom "sched" :: ts)] => do
       let inputs ← is.mapM Sexp.nat?
       let sched ← ts.mapM Sexp.nat?
